@@ -52,9 +52,17 @@ def _old_at(tok, x):
     return f"old(now({tok})._PragmaToken__pragma_lines[{x}])"
 
 
+def _nk(x, dlt):
+    """where a pragma kept under key x goes: its line (|x|, negative keys mark the alternate prefix) moves by dlt, the sign stays"""
+    return f"(({x}) + ({dlt}) if ({x}) > 0 else ({x}) - ({dlt}))"
+
+
 def _nocoll(tok, dlt):
     # a moved pragma never lands on a pragma that stays (one inside the replaced range)
-    return f"forall(lambda y: implies({_old_in(tok, 'y')} and y > {E0}, not ({_old_in(tok, 'y + now(' + dlt + ')')} and y + {dlt} <= {E0})))"
+    nk_now = _nk("y", "now(" + dlt + ")")
+    # ... and the shift never moves a line to or above line 0 (the replaced range ends at E0 and shrinks by at most its own size)
+    return (f"({E0} + {dlt} >= 0 and forall(lambda y: implies({_old_in(tok, 'y')} and abs(y) > {E0}, "
+            f"not ({_old_in(tok, nk_now)} and abs({_nk('y', dlt)}) <= {E0}))))")
 
 
 LD = "pragma_token._PragmaToken__pragma_lines"
@@ -79,12 +87,13 @@ register(Contract(
         f"forall(lambda k: g_adj[k][0] is old({A}[now({E}) + 1 + k]), 0, len(g_adj))",
         f"forall(lambda a: implies({FIRST_REAL}, forall(lambda k: g_adj[k][1] == {NEW_LINES} - "
         f"(old(next_replacement.end_token.line_number) - old({A}[a].line_number) + 1), 0, len(g_adj))), 0, old(len({A})))",
-        # pragma lines (kept in the trailing pragma token): every pragma below the replaced range moves by the same amount and
-        # keeps its text, every pragma at or above it stays -- none is lost or overwritten
+        # pragma lines (kept in the trailing pragma token under their line number, negated for the alternate prefix): every pragma
+        # below the replaced range moves by the same amount and keeps its text and prefix kind, every pragma at or above it stays --
+        # none is lost or overwritten
         f"implies({PTK}.is_pragma and len(g_adj) >= 1 and {_nocoll(PTK, DLT)}, "
-        f"forall(lambda x: implies({_old_in(PTK, 'x')} and x > {E0}, (x + {DLT}) in {PD} and {PD}[x + {DLT}] is {_old_at(PTK, 'x')})))",
+        f"forall(lambda x: implies({_old_in(PTK, 'x')} and abs(x) > {E0}, {_nk('x', DLT)} in {PD} and {PD}[{_nk('x', DLT)}] is {_old_at(PTK, 'x')})))",
         f"implies({PTK}.is_pragma and len(g_adj) >= 1 and {_nocoll(PTK, DLT)}, "
-        f"forall(lambda x: implies({_old_in(PTK, 'x')} and x <= {E0}, x in {PD} and {PD}[x] is {_old_at(PTK, 'x')})))",
+        f"forall(lambda x: implies({_old_in(PTK, 'x')} and abs(x) <= {E0}, x in {PD} and {PD}[x] is {_old_at(PTK, 'x')})))",
     ],
     raises=[Raises("ValueError"), Raises("BadPluginFixError"), Raises("IndexError"), Raises("KeyError")],
     modifies=[f"{A}.$list", "_MarkdownToken__line_number", "g_adj.$list", "g_idx.$list", "_PragmaToken__pragma_lines", "$ddom", "$dval", "$dlen",
@@ -96,11 +105,13 @@ register(Contract(
                "len(g_adj) == idx", "forall(lambda k: g_adj[k][0] is end_tokens[k] and g_adj[k][1] == line_number_delta, 0, idx)"]),
            2: Loop(index="idx", seq_name="pk", invariant=[
                # not yet moved: still where they were; already moved: at their new line; staying: untouched
-               f"forall(lambda j: implies(pk[j] > {E0}, pk[j] in {LD} and {LD}[pk[j]] is {_old_at('pragma_token', 'now(pk[j])')}), idx, len(pk))",
-               f"forall(lambda j: implies(pk[j] > {E0}, (pk[j] + line_number_delta) in {LD} and "
-               f"{LD}[pk[j] + line_number_delta] is {_old_at('pragma_token', 'now(pk[j])')}), 0, idx)",
+               f"implies({E0} + line_number_delta >= 0, "
+               f"forall(lambda j: implies(abs(pk[j]) > {E0}, pk[j] in {LD} and {LD}[pk[j]] is {_old_at('pragma_token', 'now(pk[j])')}), idx, len(pk)))",
+               f"implies({E0} + line_number_delta >= 0, "
+               f"forall(lambda j: implies(abs(pk[j]) > {E0}, {_nk('pk[j]', 'line_number_delta')} in {LD} and "
+               f"{LD}[{_nk('pk[j]', 'line_number_delta')}] is {_old_at('pragma_token', 'now(pk[j])')}), 0, idx))",
                f"implies({_nocoll('pragma_token', 'line_number_delta')}, "
-               f"forall(lambda x: implies({_old_in('pragma_token', 'x')} and x <= {E0}, x in {LD} and {LD}[x] is {_old_at('pragma_token', 'x')})))",
+               f"forall(lambda x: implies({_old_in('pragma_token', 'x')} and abs(x) <= {E0}, x in {LD} and {LD}[x] is {_old_at('pragma_token', 'x')})))",
                "implies(len(g_adj) >= 1, g_adj[0][1] == line_number_delta)",
            ])},
 ))
